@@ -1,6 +1,7 @@
 """C05 - the harvested dataset is the faithful merge of everything ever
 harvested (model-based histories)."""
 import os
+import math
 import copy
 import functools
 import itertools
@@ -670,11 +671,104 @@ def merge_strategy(draw):
             "dname": draw(st.sampled_from(["m.h5", "m", "merged.dmp"]))}
 
 
+# ------------------------------ sessions whose function returns more outputs
+
+def vars_value(j, a, b):
+    return float(models.kw_number({"a": a, "b": b}, salt=70 + j) % 4096)
+
+
+def vars_fn(a, b, nv=1):
+    out = tuple(vars_value(j, a, b) for j in range(nv))
+    return out if nv > 1 else out[0]
+
+
+def run_vars(case):
+    """The function behind a data name grows a second (third) output between
+    sessions.  Every value is a pure function of its location, so nothing ever
+    conflicts: after each step every variable holds its value at every
+    location it was ever harvested at (under all three policies: a location
+    that has no value for a variable yet is a hole, which every policy
+    fills), and memory equals disk."""
+    x = xyz()
+    engine = case["engine"]
+    with core.scratch("xv-c05v-") as root:
+        fname = os.path.join(root, case["dname"])
+        has = {}                      # variable index -> set of (a, b)
+        coords = {"a": set(), "b": set()}
+        h = None
+        for k, op in enumerate(case["ops"]):
+            nv = op["nv"]
+            sel = {d: sorted({UNIVERSE[d][i % len(UNIVERSE[d])]
+                              for i in op["sel"][d]}, key=str)
+                   for d in ("a", "b")}
+            names = ("u", "w", "z")[:nv]
+            if h is None or op["new_session"] or len(h.runner.var_names) != nv:
+                r = x.Runner(functools.partial(vars_fn, nv=nv),
+                             names if nv > 1 else "u")
+                h = x.Harvester(r, data_name=fname, engine=engine)
+            locs = list(itertools.product(sel["a"], sel["b"]))
+            with under_test(f"step {k} ({op['how']}, {nv} outputs, "
+                            f"overwrite={op['overwrite']})"):
+                if op["how"] == "combos":
+                    h.harvest_combos(sel, overwrite=op["overwrite"],
+                                     verbosity=0)
+                else:
+                    h.harvest_cases(locs, fn_args=("a", "b"),
+                                    overwrite=op["overwrite"], verbosity=0)
+            for j in range(nv):
+                has.setdefault(j, set()).update(locs)
+            for d in ("a", "b"):
+                coords[d] |= set(sel[d])
+            with under_test("read back"):
+                mem = h.full_ds
+                disk = x.load_ds(fname, engine=engine)
+            for tag, ds in (("memory", mem), ("disk", disk)):
+                for j, locs_j in has.items():
+                    nm = ("u", "w", "z")[j]
+                    require(nm in ds.data_vars, "variable-missing",
+                            f"step {k}, {tag}: no variable {nm}")
+                    for (a, b) in itertools.product(sorted(coords["a"],
+                                                           key=str),
+                                                    sorted(coords["b"])):
+                        got = float(ds[nm].sel(a=a, b=b).values)
+                        if (a, b) in locs_j:
+                            require(got == vars_value(j, a, b),
+                                    "harvested-value",
+                                    f"step {k}, {tag}: {nm} at a={a!r}, "
+                                    f"b={b!r} is {got}, harvested "
+                                    f"{vars_value(j, a, b)}")
+                        else:
+                            require(math.isnan(got), "value-from-nowhere",
+                                    f"step {k}, {tag}: {nm} at a={a!r}, "
+                                    f"b={b!r} is {got}, never harvested")
+    grew = len({op["nv"] for op in case["ops"]}) > 1
+    return {"nontrivial": grew,
+            "classes": ["more-variables", f"engine={engine}",
+                        "outputs-change" if grew else "outputs-fixed"]}
+
+
+@st.composite
+def vars_strategy(draw):
+    sel2 = st.fixed_dictionaries({
+        "a": st.lists(st.integers(0, 3), min_size=1, max_size=3),
+        "b": st.lists(idx, min_size=1, max_size=2)})
+    step = st.fixed_dictionaries({
+        "sel": sel2, "nv": st.sampled_from([1, 2, 2, 3]),
+        "overwrite": policy, "how": st.sampled_from(["combos", "cases"]),
+        "new_session": st.booleans()})
+    return {"ops": draw(st.lists(step, min_size=2, max_size=5)),
+            "engine": draw(st.sampled_from(["h5netcdf", "joblib"])),
+            "dname": draw(st.sampled_from(["v.h5", "v"]))}
+
+
+
 PHASES = [
     Phase("histories", run_case, strategy=strategy,
           examples={"quick": 1200, "thorough": 40000}),
     Phase("save_merge_ds", run_merge, strategy=merge_strategy,
           examples={"quick": 400, "thorough": 12000}),
     Phase("date-labels", run_dated, strategy=dated_strategy,
+          examples={"quick": 300, "thorough": 8000}),
+    Phase("more-variables", run_vars, strategy=vars_strategy,
           examples={"quick": 300, "thorough": 8000}),
 ]
